@@ -69,7 +69,12 @@ func NewRun(prop, tier string, seed int64) (*Run, error) {
 		return nil, err
 	}
 	return &Run{Prop: prop, Tier: tier, Seed: seed, Scratch: dir, Start: time.Now(),
-		Distinct: map[string]struct{}{}, Extra: map[string]interface{}{}}, nil
+		Distinct: map[string]struct{}{}, Extra: map[string]interface{}{},
+		Assumptions: []string{
+			"TLC 1.8 and the CommunityModules Json module are trusted",
+			"the harness' abstraction function (projection of the real state, independent page decoders) is trusted",
+			"verdicts come from behaviour of the real code only; a counterexample of the model alone, a timeout or a harness failure is exit 2",
+		}}, nil
 }
 
 // Thorough reports whether the thorough tier is running.
